@@ -18,6 +18,8 @@ import multiprocessing
 from . import leanio
 
 ROOT = os.path.dirname(os.path.dirname(os.path.abspath(__file__)))
+# evidence / replays go to /verif unless redirected (used when checks are run against seeded changes)
+OUT = os.environ.get("VERIF_OUT", ROOT)
 ALLOWED_AXIOMS = {"propext", "Classical.choice", "Quot.sound"}
 FORBIDDEN = re.compile(r"\bsorry\b|\badmit\b|^\s*axiom\s|native_decide|bv_decide|implemented_by|\bunsafe\s|maxHeartbeats\s+0\b", re.M)
 BASE_TRUSTED = [
@@ -237,11 +239,11 @@ def load_corpus(pid):
 
 
 def write_replay(pid, payload):
-    d = os.path.join(ROOT, "replays")
+    d = os.path.join(OUT, "replays")
     os.makedirs(d, exist_ok=True)
     path = os.path.join(d, f"{pid}_{digest(payload)}.json")
     json.dump(payload, open(path, "w"), indent=1, default=str)
-    return os.path.relpath(path, ROOT)
+    return os.path.relpath(path, OUT) if OUT == ROOT else path
 
 
 def main(argv=None):
@@ -383,8 +385,8 @@ def main(argv=None):
         "wall_s": round(wall, 2),
         "violations": 1 if violation else 0,
     }
-    os.makedirs(os.path.join(ROOT, "evidence"), exist_ok=True)
-    json.dump(ev, open(os.path.join(ROOT, "evidence", f"{pid}.json"), "w"), indent=1, default=str)
+    os.makedirs(os.path.join(OUT, "evidence"), exist_ok=True)
+    json.dump(ev, open(os.path.join(OUT, "evidence", f"{pid}.json"), "w"), indent=1, default=str)
 
     seen = set()
     for f, hit in known:
